@@ -132,15 +132,21 @@ func VerifH_C07_Acks() {
 			if len(r.wseq) > 0 {
 				first = r.wseq[0] // an acknowledgement sent before the request was written is unsolicited: it completes nothing
 			}
+			rel := first
+			if len(r.wseq) > 1 {
+				rel = r.wseq[1]
+			}
+			if verifParam("preempt", 0) == 1 {
+				// Under preemptive schedules (delay bound >= 1) the waiter, which the client registers just before
+				// writing the packet, may legitimately receive an acknowledgement that arrives inside that window;
+				// "sent after the packet was written" is demanded only of the non-preemptive runs.
+				first, rel = 0, 0
+			}
 			switch r.kind {
 			case c11Pub1:
 				ok, _ := sentAfter(4, r.id, first)
 				verifAssert(ok, "C07.puback_own_id_before_success")
 			case c11Pub2:
-				rel := first
-				if len(r.wseq) > 1 {
-					rel = r.wseq[1]
-				}
 				ok1, _ := sentAfter(5, r.id, first)
 				ok2, _ := sentAfter(7, r.id, rel) // the PUBCOMP that answers this request's PUBREL
 				verifAssert(verifAnd(ok1, ok2), "C07.pubrec_and_pubcomp_own_id_before_success")
